@@ -1,7 +1,12 @@
 (* C09: positions are values.  One CASE = one operation sequence; after every operation every live handle is observed
    (a) in the pure value model (the position value computed for the handle by the pure functions) -> L1,
-   (b) in the ownership store model of Alloc.v (objects, slice headers, array heap) -> L2 (headers and raw values),
-   and (a) = (b) is checked inside the model (reported as SPEC disagreement). *)
+   (b) in the ownership store model of Alloc.v (objects, the two group slice headers, array heap), and
+   (c) in the refined store model of Alloc2.v, where Height and Stacks are slice headers into heap arrays as well
+       -> L2: for every held object the four headers Height/Stacks/WhiteGroups/BlackGroups, each named by the object
+       whose embedded array it points into (H<k>, S<k>, o<k>; f<i> = an array made by append; n = nil) with offset and
+       length -- i.e. the alias structure -- and the raw value of every live handle read THROUGH its headers;
+   (a) = (b) = (c) is checked inside the model (reported as SPEC disagreement), as is the admissibility (op_ok2) of every
+   step and that both store models return the same result. *)
 open Common
 
 let parse_op (t : string) : Alloc.opr =
@@ -52,6 +57,7 @@ let run args =
     let with_legal = L.mem "legal=1" flags and full = L.mem "fmt=full" flags in
     let ops = L.map parse_op (L.filter (fun t -> t <> "") (L.tl parts)) in
     let st = ref Alloc.empty_store and ps = ref [] in
+    let st2 = ref Alloc2.empty_store2 and zs = ref [] in
     let unheld : (int, unit) Hashtbl.t = Hashtbl.create 8 in
     let last1 : (int, string) Hashtbl.t = Hashtbl.create 16 and last2 : (int, string) Hashtbl.t = Hashtbl.create 16 in
     let fresh : (int, int) Hashtbl.t = Hashtbl.create 8 in
@@ -60,13 +66,23 @@ let run args =
     let note s = if !spec = None then spec := Some s in
     let l1 = ref [] and l2 = ref [] in
     L.iteri (fun stepno op ->
-      if not (Alloc.op_ok !ps op) then note (Printf.sprintf "step %d is not admissible in the model (dead source, or buffer = source)" stepno);
+      if not (Alloc.op_ok !ps op) then note (Printf.sprintf "step %d is not admissible in the model (dead source, or buffer = source)" stepno)
+      else if not (Alloc2.op_ok2 !ps !zs op) then note (Printf.sprintf "step %d is not admissible in the refined model (size outside 3..8, or a buffer of another size)" stepno);
       let nbefore = L.length (!st).Alloc.s_objs in
       let (st', res) = stepf !st op in
+      let (st2', res2) = Alloc2Inst.a2_step !st2 op in
+      zs := Alloc2.zstep !ps !zs op;
       ps := AllocInst.a_pure_step !ps op;
-      st := st';
+      st := st'; st2 := st2';
+      (match res, res2 with
+       | Some a, Move.Ok b when a = b -> ()
+       | None, (Move.Err | Move.Panic) -> ()
+       | _ -> note (Printf.sprintf "step %d: the two store models return different results" stepno));
       let objs = Array.of_list (!st).Alloc.s_objs in
       let arrs = (!st).Alloc.s_arrs in
+      let objs2 = Array.of_list (!st2).Alloc2.s2_objs in
+      let arrs2 = (!st2).Alloc2.s2_arrs in
+      if Array.length objs2 <> Array.length objs then note (Printf.sprintf "step %d: the two store models hold different numbers of objects" stepno);
       (match op, res with
        | Alloc.OMove _, None -> if Array.length objs > nbefore then Hashtbl.replace unheld nbefore ()
        | _ -> ());
@@ -75,13 +91,16 @@ let run args =
         | _, Some id -> int_of_nat id
         | _, None -> -1) in
       if created >= 0 then begin Hashtbl.remove last1 created; Hashtbl.remove last2 created end;
-      let own_of : (int, int) Hashtbl.t = Hashtbl.create 16 in
-      Array.iteri (fun k o -> if not (Hashtbl.mem unheld k) then Hashtbl.replace own_of (int_of_nat o.Alloc.o_own) k) objs;
+      let own_of : (int, string) Hashtbl.t = Hashtbl.create 16 in
+      Array.iteri (fun k o -> if not (Hashtbl.mem unheld k) then begin
+        Hashtbl.replace own_of (int_of_nat o.Alloc2.o2_H) ("H" ^ string_of_int k);
+        Hashtbl.replace own_of (int_of_nat o.Alloc2.o2_S) ("S" ^ string_of_int k);
+        Hashtbl.replace own_of (int_of_nat o.Alloc2.o2_G) ("o" ^ string_of_int k) end) objs2;
       let hdr (r : Alloc.sref) =
         let a = int_of_nat r.Alloc.r_arr and off = int_of_nat r.Alloc.r_off and len = int_of_nat r.Alloc.r_len in
         if a = 0 then "n" else begin
           let name = (match Hashtbl.find_opt own_of a with
-            | Some k -> "o" ^ string_of_int k
+            | Some nm -> nm
             | None ->
               (match Hashtbl.find_opt fresh a with
                | Some i -> "f" ^ string_of_int i
@@ -89,8 +108,9 @@ let run args =
           if len = 0 then name ^ ".e" else Printf.sprintf "%s.%d.%d" name off len end in
       let s1 = ref [ (match res with Some id -> "r=+" ^ string_of_int (int_of_nat id) | None -> "r=-") ] and s2 = ref [] in
       Array.iteri (fun k o ->
-        if not (Hashtbl.mem unheld k) then begin
-          s2 := Printf.sprintf "%d:w=%s,b=%s" k (hdr o.Alloc.o_wg) (hdr o.Alloc.o_bg) :: !s2;
+        if not (Hashtbl.mem unheld k) && k < Array.length objs2 then begin
+          let o2 = objs2.(k) in
+          s2 := Printf.sprintf "%d:h=%s,s=%s,w=%s,b=%s" k (hdr o2.Alloc2.o2_hh) (hdr o2.Alloc2.o2_sh) (hdr o2.Alloc2.o2_wg) (hdr o2.Alloc2.o2_bg) :: !s2;
           match Alloc.pval !ps (nat_of_int k) with
           | None -> ()
           | Some v ->
@@ -103,8 +123,12 @@ let run args =
             let (((_, wg), bg), _) = pure in
             if not (o.Alloc.o_pos == v || o.Alloc.o_pos = v) || Alloc.read_ref arrs o.Alloc.o_wg <> wg || Alloc.read_ref arrs o.Alloc.o_bg <> bg
             then note (Printf.sprintf "after step %d the store model's view of handle %d differs from the pure value" stepno k);
+            (* the refined store model: the value read through the Height/Stacks headers, the groups through theirs *)
+            let v2 = Alloc2.view arrs2 o2 in
+            if not (v2 = v) || Alloc.read_ref arrs2 o2.Alloc2.o2_wg <> wg || Alloc.read_ref arrs2 o2.Alloc2.o2_bg <> bg
+            then note (Printf.sprintf "after step %d the refined store model's view of handle %d (through its headers) differs from the pure value" stepno k);
             let t1 = if with_legal then t1 ^ "/" ^ legal_digest v else t1 in
-            let t2 = if o.Alloc.o_pos == v then t2raw else enc o.Alloc.o_pos in
+            let t2 = if v2 = v then t2raw else enc v2 in
             let (t1, t2) = if full then (t1, t2) else (md5_16 t1, md5_16 t2) in
             (if Hashtbl.find_opt last1 k = Some t1 then s1 := Printf.sprintf "%d==" k :: !s1
              else begin s1 := Printf.sprintf "%d=%s" k t1 :: !s1; Hashtbl.replace last1 k t1 end);
